@@ -1413,6 +1413,8 @@ class Exec:
         if f.builtin:
             return bm.call_builtin(self, f.builtin, f.bound_self, args, kwargs, p, node, fr)
         if f.qual:
+            wr = self.prog.wrapped_by(f.qual)
+            if wr: raise Unsupported(f'call of {f.qual}, which is wrapped by decorator(s) {wr}: its contract / body is not what the call reaches')
             c = self.reg.get(f.qual)
             full_args = ([f.bound_self] if f.bound_self is not None else []) + list(args)
             if c is not None and not self.is_current(c):
